@@ -440,15 +440,30 @@ class InstanceValue(Object):
         self.cls = cls
 
     @cached_property
-    def _attrs(self):
+    def _assigned(self):
         # type: () -> Attributes
-        self.__dict__['_attrs'] = {}  # see ClassObject._attrs
-        attrs = self.cls._attrs.copy()
+        """Attributes assigned through self in the class and in its bases"""
+        self.__dict__['_assigned'] = {}  # see ClassObject._attrs
+        attrs = {}  # type: Attributes
         for b in reversed(self.cls.bases):
             o = b.call(self.ctx)
-            if o:
-                attrs.update(o._attrs)
+            if isinstance(o, InstanceValue):
+                attrs.update(o._assigned)
         attrs.update(self.cls.scope.top.assigns(self.ctx).get(self, {}))
+        return attrs
+
+    @cached_property
+    def _attrs(self):
+        # type: () -> Attributes
+        # python looks into the instance first, then into the classes
+        self.__dict__['_attrs'] = {}  # see ClassObject._attrs
+        attrs = {}  # type: Attributes
+        for b in reversed(self.cls.bases):
+            o = b.call(self.ctx)
+            if o and not isinstance(o, InstanceValue):
+                attrs.update(o._attrs)  # instance of a runtime class
+        attrs.update(self.cls._attrs)
+        attrs.update(self._assigned)
         return attrs
 
 
